@@ -20,6 +20,7 @@ let () =
       let built = build N0 input in
       let builtd = dump_geom built in
       let wf = wf_wkb built in
+      note_case f.(3) (not (is_empty built));
       count ("class_" ^ cls);
       if wf then count "wf" else count "not_wf";
       (* CORR: constructors *)
